@@ -37,7 +37,7 @@ ASSUMPTIONS = [
     "string parsing for arbitrary names is covered by the SMT lemma (names without the separator characters, bounded length)",
 ]
 BOUNDS = {
-    "quick": "all index columns over {a,b,c} with 0..4 rows; histories of <=2 mutations out of {whole index column, index cell by position / by name / by tuple, attribute style, new column, column deletion (del/pop), data cell write} "
+    "quick": "all index columns over {a,b,c} with 0..4 rows (object dtype) and five patterns built with cast_strings=False (fixed-width unicode index, longer names truncated on store); histories of <=2 mutations out of {whole index column, index cell by position / by name / by tuple, attribute style, new column, column deletion (del/pop), data cell write} "
              "with a lookup sweep (which builds the cache) before and after each; parsing lemma: names <= 3 chars, numerals <= 3 chars",
     "thorough": "0..5 rows, histories <=3 (reduced sweep for the third), parsing lemma with names <= 4 chars",
 }
@@ -46,7 +46,7 @@ REQUIRED_CLASSES = ["sweep", "keyerror_expected", "write_checked", "unique_label
 PROFILE_CASES = 6
 TASKS_PER_CHILD = 200
 ALPHA = ["a", "b", "c"]
-PROBE = ["a", "b", "c", "d", "zz"]
+PROBE = ["a", "b", "c", "d", "zz", "ab", "dd"]
 COUNTS = list(range(-5, 6))
 OFFSETS = list(range(-4, 5))
 
@@ -198,7 +198,7 @@ def mutations(t):
         out.append(("col", newpat))
     out.append(("attr", (["c", "a", "a", "b", "c"])[:n]))
     for i in range(n):
-        for nm in ("a", "b", "d", names[0]):
+        for nm in ("a", "b", "d", str(names[0]), "dd", "ab"):
             out.append(("cell_pos", i, nm))
     for i in range(-n, 0):
         out.append(("cell_pos", i, "a"))
@@ -255,11 +255,34 @@ def run_case(ex, case):
     Table = xd.Table
     names = case["pattern"]
     n = len(names)
-    data = {"name": np.array(names, dtype=object) if n else np.array([], dtype=object),
+    idx_col = np.array(names, dtype=object) if n else np.array([], dtype=object)
+    if case.get("fixed_width") and n:
+        idx_col = np.array(names)               # dtype <U1: longer names are truncated by numpy on store
+    data = {"name": idx_col,
             "v": np.array([ex.int(f"v{i}") for i in range(n)], dtype=object),
             "w": np.arange(n, dtype=float)}
-    t = Table(data, index="name")
-    hist = [f"Table(name={names})"]
+    t = Table(data, index="name", cast_strings=not case.get("fixed_width", False))
+    hist = [f"Table(name={names}" + (", cast_strings=False)" if case.get("fixed_width") else ")")]
+    if case.get("derived"):
+        # t = t0 + u (or t0 * 2) built after lookups on t0: addressing must follow the new index column
+        if not sweep(ex, t, hist):
+            return
+        unames = case["derived"]
+        if unames == "*2":
+            t2 = t * 2
+            hist.append("t * 2")
+        else:
+            nu = len(unames)
+            u = Table({"name": np.array(unames, dtype=object), "v": np.array([ex.int(f"uv{i}") for i in range(nu)], dtype=object),
+                       "w": np.arange(nu, dtype=float)}, index="name")
+            t2 = t + u
+            hist.append(f"t + Table(name={unames})")
+        if not sweep(ex, t2, hist):
+            return
+        if unames != "*2" and not write_check(ex, t2, hist):
+            return
+        sweep(ex, t, hist)
+        return
     warm = ex.choose(2)               # whether the cache is built before the first mutation
     if warm and not sweep(ex, t, hist):
         return
@@ -307,11 +330,17 @@ def cases(tier):
                 continue
             K = 2 if (tier != "quick" or n <= 3) else 1
             if K == 2:
-                for first in range(8 + 5 * n + 3 * len(seen)):
+                for first in range(12 + 8 * n + 4 * len(seen)):
                     out.append({"build": "pure", "pattern": list(pat), "K": K, "first": first})
             else:
                 out.append({"build": "pure", "pattern": list(pat), "K": K})
     out.append({"build": "pure", "pattern": ["x", "a", "x", "a"], "K": 1})
+    for pat in (["a"], ["a", "b"], ["a", "a", "b"], ["a", "b", "c"], ["b", "a", "b", "a"]):
+        for first in range(12 + 8 * len(pat) + 4 * len(set(pat))):
+            out.append({"build": "pure", "pattern": pat, "K": 2 if len(pat) <= 2 else 1, "first": first, "fixed_width": True})
+    for pat in (["a"], ["a", "b"], ["a", "b", "a"], ["b", "b"]):
+        for un in (["a"], ["c", "a"], ["b", "b", "a"], "*2"):
+            out.append({"build": "pure", "pattern": pat, "K": 0, "derived": un})
     for form in ("n", "n::c", "n<<k", "n>>k", "n::c<<k", "n::c>>k"):
         out.append({"mode": "lemma", "form": form, "maxname": 3 if tier == "quick" else 4, "build": "pure"})
     return out
